@@ -56,6 +56,19 @@ def strategy_c11(draw, kmax):
     ncalls = 1 if k == 1 else 2 if mode == "nest" else draw(st.integers(1, min(k, 3)))
     calls = [draw(S.problems(PROFILE)) for _ in range(ncalls)]
     idx = [0, 1] if mode == "nest" else [draw(st.integers(0, ncalls - 1)) for _ in range(k)]
+    if draw(st.integers(0, 4)) == 0:
+        # calls without any options (the documented defaults, incl. maxfev = 500 n): small smooth problems
+        # that converge quickly, some with a box narrower than twice the default initial radius
+        prof = dict(PROFILE, ns=[(1, 2), (2, 3)], obj_kinds=[("quad", 1)], max_lin=1, max_nl=0, faults=0,
+                    callback_prob=0, bound_pats=[("free", 2), ("two", 3), ("narrow", 2), ("lower", 1)])
+        calls = []
+        for _ in range(ncalls):
+            sp = dec(draw(S.problems(prof)))
+            q = np.array(sp["obj"]["Q"], float)
+            sp["obj"]["Q"] = (q + (1.0 + abs(float(np.min(np.linalg.eigvalsh(q))))) * np.eye(sp["n"])).tolist()
+            sp["options"] = {}
+            sp["pass_options"] = False
+            calls.append(enc(sp))
     return {"mode": mode, "calls": calls, "idx": idx, "share": draw(st.booleans()),
             "choices": draw(st.lists(st.integers(0, 15), min_size=8, max_size=48)),
             "quanta": draw(st.lists(st.integers(1, 400), min_size=4, max_size=32)),
